@@ -5,10 +5,10 @@ package main
 
 import (
 	"fmt"
-	"sort"
 	"go/constant"
 	"go/token"
 	"go/types"
+	"sort"
 	"strings"
 
 	"golang.org/x/tools/go/ssa"
@@ -891,7 +891,6 @@ func callReaches(ci ssa.CallInstruction, pred func(name string) bool, depth int)
 	return false
 }
 
-
 // fnAndHelpers: fn and the same-package functions with a body it calls statically, to the given depth
 // (a block extracted into a helper stays in the scope of a rule written for fn).
 func fnAndHelpers(fn *ssa.Function, depth int) []*ssa.Function {
@@ -927,7 +926,6 @@ func fnAndHelpers(fn *ssa.Function, depth int) []*ssa.Function {
 	walk(fn, depth)
 	return out
 }
-
 
 // edgeDominates: every path from the function's entry to target takes the edge (from, successor succ).
 // Unlike from.Succs[succ].Dominates(target) this stays exact when the successor block has other
